@@ -9,8 +9,9 @@
      region order, for every paragraph of the body, in document order, the Br/Text leaves whose whole chain of
      ancestors is active at s_i, selected for the region and not display:none (C01's `chain_visible`), in document
      order; a Br is a line break, the end of a paragraph and the end of a region are line breaks, a character of
-     text is itself, except that XML white space is a space (a line feed inside xml:space="preserve" content is a
-     line break).  Text below rt/rp (ruby annotation and its delimiters) may or may not be part of the payload:
+     text is itself, except that XML white space is a space (a line feed or carriage return inside xml:space="preserve"
+     content is a line break: both terminate a line in SubRip and WebVTT files; an XML parser never delivers a carriage
+     return, it can only come from a character reference or the API).  Text below rt/rp (ruby annotation and its delimiters) may or may not be part of the payload:
      `annot` selects the reading, and a payload is accepted if it agrees with either.
      White-space normal form (`canon`): every maximal run of spaces/breaks is one break if it holds a break, else
      one space; runs at either end vanish.  (S does not re-specify TTML white-space collapsing — that is C13 — it
@@ -36,7 +37,7 @@ Fixpoint toks_eqb (a b : list tok) : bool :=
 
 (* characters: XML white space (is_space of IsdSpec: TAB LF CR SPACE) *)
 Definition char_tok (preserve : bool) (c : Z) : tok :=
-  if is_space c then (if preserve && (c =? 10) then TLb else TSp) else TChr c.
+  if is_space c then (if preserve && ((c =? 10) || (c =? 13)) then TLb else TSp) else TChr c.
 (* the leaf at the end of a chain; its parent's xml:space governs its white space *)
 Definition chain_toks (c : list attrs) : list tok :=
   match rev c with
